@@ -51,6 +51,8 @@ theorem mapStr_get_indep {K V K' V' : Type} [BEq K'] [LawfulBEq K'] (f : K → K
   unfold NoDupKeys
   simpa [mapStr, List.map_map, Function.comp_def] using inj
 
+example : (([("Query", 1), ("User", 2)] : List (String × Nat)).map Prod.fst |>.map fun s => s ++ "!").Nodup := by decide
+
 /-- The side condition of `mapStr_get_indep` is needed: with a non-injective `f` two entries collide and the hash
     order decides which one survives (library API only; the CLI does not call `map_str`). -/
 theorem mapStr_noninjective_counterexample :
@@ -181,12 +183,6 @@ theorem C17_sites_nonempty :
 
 /-! ## (b) reordering definitions: lookup views -/
 
-theorem typeDefs_perm {items₁ items₂ : TsDoc} (h : items₁.Perm items₂) :
-    (Schema.mk items₁).typeDefs.Perm (Schema.mk items₂).typeDefs := h.filterMap _
-
-theorem directiveDefs_perm {items₁ items₂ : TsDoc} (h : items₁.Perm items₂) :
-    (Schema.mk items₁).directiveDefs.Perm (Schema.mk items₂).directiveDefs := h.filterMap _
-
 /-- `Schema::get_type` / `DefinitionMap.types.get`: the definition found under a name does not depend on the order
     of the definitions, when type names are distinct -/
 theorem typeDef?_perm {items₁ items₂ : TsDoc} (h : items₁.Perm items₂) (nd : NoDupTypeNames items₁) (n : Name) :
@@ -257,6 +253,9 @@ theorem rootName_perm {items₁ items₂ : TsDoc} (h : items₁.Perm items₂)
   unfold Schema.rootName Schema.explicitRoot?
   rw [he]
 
+example : (Schema.mk [.schemaDef { roots := [(.query, "Q", {})] }, .typeDef { kind := .object, name := "Q" }]).schemaDefs.length ≤ 1 := by
+  decide
+
 /-! ## (b) verdict and denotation -/
 
 /-- **Verdict.** For a checker that visits the definitions in document order and consults the rest of the document
@@ -281,12 +280,6 @@ def DeclRel : Option Decl → Option Decl → Prop
   | some d₁, some d₂ => d₁.name = d₂.name ∧ d₁.body.Equiv d₂.body
   | none, none => True
   | _, _ => False
-
-theorem declNamed_decls (items : TsDoc) (a : Name) :
-    declNamed (decls items) a = ((Schema.mk items).typeDef? a).map (declOf (Schema.mk items)) := by
-  unfold declNamed decls Schema.typeDef?
-  rw [List.find?_map]
-  rfl
 
 /-- **Denotation.** Reordering key-distinct definitions changes at most the order of the declarations: the same
     aliases are declared, and each alias denotes the same type (union members as a set). -/
